@@ -87,7 +87,10 @@ Definition tx_folds (j : journal) : list (Z * Z) :=
   flat_map (fun t => match tx_postings t with
                      | [] => []
                      | _ => let s := u32 (p_line (r_start (tx_rng t)) - 1) in
-                            let e := u32 (p_line (r_end (tx_rng t)) - 1) in
+                            let e0 := u32 (p_line (r_end (tx_rng t)) - 1) in
+                            (* the range ends where the next token starts: at the beginning of a
+                               line the transaction's last line is the one before (/repo fold repair) *)
+                            let e := if (p_col (r_end (tx_rng t)) =? 1) && (s <? e0) then e0 - 1 else e0 in
                             if s <? e then [(s, e)] else []
                      end) (j_txs j).
 
